@@ -151,7 +151,7 @@ func (as *NodeNameSpace) Attribute(id *ua.NodeID, attr ua.AttributeID) *ua.DataV
 			}
 		}
 		// TODO: we need int32 instead of uint32 here.  this isn't the right place to fix it, but it is a bandaid
-		x, ok := a.Value.Value.Value().(uint32)
+		x, ok := attrValue(a.Value).(uint32)
 		if ok {
 			a.Value.Value = ua.MustVariant(int32(x))
 		}
